@@ -5,6 +5,8 @@
   `Mirror d t R` says that rank `i` lists exactly the fibers found at depth `i`.
 -/
 import FtProofs.Lemmas.RankLemmas
+import FtProofs.Lemmas.PopRankLemmas
+import FtProofs.C01
 set_option linter.unusedSectionVars false
 set_option linter.unusedSimpArgs false
 namespace Ft
@@ -101,6 +103,45 @@ theorem assign_mirror (dflt : ν) (d : Nat) (t : Tree Int ν (d + 1)) (R : RankL
   | some x =>
     obtain ⟨d', s⟩ := x
     exact replace_mirror (fiberStep dflt (.assignF q g)) d t R q d' s h hm hloc
+
+/-- **populate loops** (`z << a` at any fiber of the tensor, nested to any depth, with bodies that write
+    leaves, recurse, skip or only touch the offered sub-fibers): the loop never loses a fiber that was
+    there, and with the fibers it created and kept appended to their ranks — what `_create_payload`'s
+    `Rank.append` and the clean-up's `Rank.pop` leave behind — the bookkeeping stays a mirror -/
+theorem populate_mirror (dflt : ν) (d : Nat) (t : Tree Int ν (d + 1)) (R : RankLists Int) (q : List Int)
+    (a : TreeArg ν) (leafF : List Int → ν → ν → ν) (inner : List Int → Inner Int)
+    (ha : a.WFArg) (h : WF (d + 1) t) (hm : Mirror (d + 1) t R) :
+    Mirror (d + 1) (populateStepR dflt d t R q a leafF inner).1 (populateStepR dflt d t R q a leafF inner).2 := by
+  unfold populateStepR
+  cases hloc : locate d t q with
+  | none => exact hm
+  | some x =>
+    obtain ⟨d', s⟩ := x
+    have hs : WF (d' + 1) s := locate_wf d t h q d' s hloc
+    refine grow_mirror (fiberStep dflt (.populate q a leafF inner)) d t R q d' s h hm hloc
+      (fiberStep_wf dflt (.populate q a leafF inner) ha d' s hs) ?_
+    intro j p hp
+    simp only [fiberStep]
+    cases hg : a.get (d' + 1) with
+    | none => exact hp
+    | some x => exact popNest_keeps_paths dflt leafF inner d' [] s x hs (ha _ _ hg) j p hp
+
+/-- populate never removes or re-creates a fiber that existed before the loop -/
+theorem populate_keeps_fibers (dflt : ν) (leafF : List Int → ν → ν → ν) (inner : List Int → Inner Int)
+    (d : Nat) (pre : List Int) (z a : Tree Int ν (d + 1)) (hz : WF (d + 1) z) (ha : WF (d + 1) a) (j : Nat)
+    (p : List Int) (hp : p ∈ pathsAt (d + 1) z j) : p ∈ pathsAt (d + 1) (popNest dflt leafF inner d pre z a) j :=
+  popNest_keeps_paths dflt leafF inner d pre z a hz ha j p hp
+
+/-! non-vacuity of `populate_mirror`: a nested loop that creates [0,2], and creates and drops [5] and [5,0] -/
+private def popT : Tree Int Int 3 := [(0, [(1, [(2, (5 : Int))])]), (3, [])]
+private def popA : TreeArg Int := ⟨fun k => match k with
+  | 3 => some ([(0, [(1, [(4, (1 : Int))]), (2, [(0, (1 : Int))])]), (5, [(0, [(0, (2 : Int))])])] : Tree Int Int 3)
+  | _ => none⟩
+private def popR := populateStepR (0 : Int) 2 popT (regAll 3 popT) [] popA (fun _ cur a => cur + a)
+  (fun p => if p == [5, 0] then Inner.skip else Inner.recurse)
+#guard wfB 3 popT && (locate 2 popT []).isSome
+#guard popR.2 == [[[]], [[0], [3]], [[0, 1], [0, 2]]]
+#guard mirrorB 3 popR.1 popR.2 && !mirrorB 3 popR.1 (regAll 3 popT)
 
 end
 end Ft
